@@ -196,6 +196,17 @@ func KL1(l *L, x int) int { return 100001 }
 func KL2(l *L, x int) int { return 100002 }
 func KL3(l *L, x int) int { return 100003 }
 
+func KG0(x int64) int64 { return 100000 }
+func KG1(x int64) int64 { return 100001 }
+func KG2(x int64) int64 { return 100002 }
+func KG3(x int64) int64 { return 100003 }
+
+// KBad has a signature no target has: goom's signature check must reject it before anything is patched.
+func KBad() int { return 100099 }
+
+// VarTarget is mocked-by-lookup only (`b.Var(&VarTarget)`, never Set): a mocker kind outside C02 that Reset walks too.
+var VarTarget = 41
+
 // ---- origin placeholders (bodies are overwritten by goom with the relocated original)
 
 func filler(x int) int {
